@@ -34,7 +34,8 @@ theorem identify_guards :
        "if peerInfo.BroadcastAddress == \"\" || peerInfo.TCPPort == 0 || peerInfo.HTTPPort == 0 || peerInfo.Version == \"\""] := by
   decide
 
-/-- the command words are the byte strings the model compares with -/
+/-- the command words are the byte strings the model compares with (Lean literal against Lean literal: a sanity
+check of the byte lists only; the tie to the SOURCE text is `Nsq.Tie.RegistryProto.command_bytes_regenerated`) -/
 theorem command_bytes :
     "PING".toList.map (·.toNat) = cmdPING.map (·.toNat) ∧
     "IDENTIFY".toList.map (·.toNat) = cmdIDENTIFY.map (·.toNat) ∧
@@ -71,18 +72,10 @@ theorem getTopicChan_guards :
       ["if len(params) == 0", "if len(params) >= 2", "if !protocol.IsValidTopicName(topicName)",
        "if channelName != \"\" && !protocol.IsValidChannelName(channelName)"] := by decide
 
-/-- REGISTER as in the tree: `AddProducer(channel key)`, then `AddProducer(topic key)` — two
-critical sections (`regStep1`, `regStep2`; finding `race:register-vs-topic-delete`) … -/
-def registerShapeTwoSections : Prop :=
-    Lookupd.registerGuards =
-      ["if client.peerInfo == nil", "if channel != \"\"",
-       "assign key := Registration{\"channel\", topic, channel}",
-       "assign key := Registration{\"topic\", topic, \"\"}"] ∧
-    Lookupd.callsRegister = ["getTopicChan", "AddProducer", "AddProducer"] ∧
-    Lookupd.registerProducerStmts = [] ∧ Lookupd.callsRegisterProducer = []
-
-/-- … or with the proposed fix F18 (`RegistrationDB.RegisterProducer`: channel key, then topic key
-under ONE `Lock()`/`Unlock()`). Both have the sequential behaviour of `registerDB`. -/
+/-- REGISTER: `RegistrationDB.RegisterProducer` (channel key, then topic key under ONE `Lock()`/`Unlock()`;
+commit 0d24920 = F21). The shape before F21 (`AddProducer(channel key)`, then `AddProducer(topic key)`: two critical
+sections, `regStep1`/`regStep2`, finding `race:register-vs-topic-delete`) is no longer accepted (audit B12): with F21
+reverted this module does not build. The sequential behaviour is `registerDB`. -/
 def registerShapeAtomic : Prop :=
     Lookupd.registerGuards =
       ["if client.peerInfo == nil",
@@ -94,31 +87,14 @@ def registerShapeAtomic : Prop :=
        "return return addedChannel, add(Registration{\"topic\", topic, \"\"})"] ∧
     Lookupd.callsRegisterProducer = ["Lock", "Unlock", "add", "add"]
 
-instance : Decidable registerShapeTwoSections := by unfold registerShapeTwoSections; infer_instance
 instance : Decidable registerShapeAtomic := by unfold registerShapeAtomic; infer_instance
 
-theorem register_shape : registerShapeTwoSections ∨ registerShapeAtomic := by decide
+theorem register_shape : registerShapeAtomic := by decide
 
-/-- UNREGISTER as in the tree (RemoveProducer, then RemoveRegistration when `left == 0` and the
-name is ephemeral: two critical sections) … -/
-def unregisterShapeTwoSections : Prop :=
-    Lookupd.unregisterGuards =
-      ["if client.peerInfo == nil", "if channel != \"\"",
-       "assign key := Registration{\"channel\", topic, channel}",
-       "assign removed, left := p.nsqlookupd.DB.RemoveProducer(key, client.peerInfo.id)",
-       "if left == 0 && strings.HasSuffix(channel, \"#ephemeral\")",
-       "assign registrations := p.nsqlookupd.DB.FindRegistrations(\"channel\", topic, \"*\")",
-       "assign removed, _ := p.nsqlookupd.DB.RemoveProducer(r, client.peerInfo.id)",
-       "assign key := Registration{\"topic\", topic, \"\"}",
-       "assign removed, left := p.nsqlookupd.DB.RemoveProducer(key, client.peerInfo.id)",
-       "if left == 0 && strings.HasSuffix(topic, \"#ephemeral\")"] ∧
-    Lookupd.callsUnregister =
-      ["getTopicChan", "RemoveProducer", "RemoveRegistration", "FindRegistrations", "RemoveProducer",
-       "RemoveProducer", "RemoveRegistration"] ∧
-    Lookupd.pruneStmts = []
-
-/-- … or with the proposed fix F12 (`RemoveProducerAndPrune`: one critical section). Both have
-the sequential behaviour of `unregisterDB`. -/
+/-- UNREGISTER: `RemoveProducerAndPrune` (remove + prune of an `#ephemeral` key in one critical section; commit
+994e31e = F12). The shape before F12 (`RemoveProducer`, then `RemoveRegistration` when `left == 0`: two critical
+sections, findings `race:unregister-gc-vs-register[-topic]`) is no longer accepted (audit B12). The sequential
+behaviour is `unregisterDB`. -/
 def unregisterShapeAtomic : Prop :=
     Lookupd.unregisterGuards =
       ["if client.peerInfo == nil", "if channel != \"\"",
@@ -133,10 +109,9 @@ def unregisterShapeAtomic : Prop :=
     Lookupd.pruneStmts =
       ["assign producers, ok := r.registrationMap[k]", "assign left := len(producers)", "if prune && left == 0"]
 
-instance : Decidable unregisterShapeTwoSections := by unfold unregisterShapeTwoSections; infer_instance
 instance : Decidable unregisterShapeAtomic := by unfold unregisterShapeAtomic; infer_instance
 
-theorem unregister_shape : unregisterShapeTwoSections ∨ unregisterShapeAtomic := by decide
+theorem unregister_shape : unregisterShapeAtomic := by decide
 
 /-- `FilterByActive` / `IsTombstoned` / `Tombstone`: strict `>` for inactivity, strict `<` for the
 tombstone lifetime (`activeB`, `isTombstoned` in the model) -/
@@ -153,46 +128,111 @@ theorem match_conditions :
        "if subkey != \"*\" && k.SubKey != subkey"] ∧
     Lookupd.needFilter = ["return return key == \"*\" || subkey == \"*\""] := by decide
 
-theorem lookup_shape :
+/-- `doLookup`, `doNodes` as in the tree: every `RegistrationDB` read takes the read lock by itself — three critical
+sections (`lookupSecs false`), 1 + 2n (`nodesSecs false`); findings `race:lookup-vs-topic-delete`,
+`race:nodes-vs-topic-delete` … -/
+def readersShapeSections : Prop :=
     Lookupd.lookupStmts =
       ["assign registration := s.nsqlookupd.DB.FindRegistrations(\"topic\", topicName, \"\")",
        "if len(registration) == 0",
        "assign channels := s.nsqlookupd.DB.FindRegistrations(\"channel\", topicName, \"*\").SubKeys()",
        "assign producers := s.nsqlookupd.DB.FindProducers(\"topic\", topicName, \"\")",
-       "assign producers = producers.FilterByActive(s.nsqlookupd.opts.InactiveProducerTimeout, s.nsqlookupd.opts.TombstoneLifetime)"] := by
-  decide
-
-theorem nodes_shape :
+       "assign producers = producers.FilterByActive(s.nsqlookupd.opts.InactiveProducerTimeout, s.nsqlookupd.opts.TombstoneLifetime)"] ∧
+    Lookupd.callsLookup = ["FindRegistrations", "FindRegistrations", "FindProducers", "FilterByActive"] ∧
     Lookupd.nodesStmts =
       ["assign producers := s.nsqlookupd.DB.FindProducers(\"client\", \"\", \"\").FilterByActive( s.nsqlookupd.opts.InactiveProducerTimeout, 0)",
        "assign topics := s.nsqlookupd.DB.LookupRegistrations(p.peerInfo.id).Filter(\"topic\", \"*\", \"\").Keys()",
        "assign topicProducersMap[t] = s.nsqlookupd.DB.FindProducers(\"topic\", t, \"\")",
        "if tp.peerInfo == p.peerInfo",
-       "assign tombstones[j] = tp.IsTombstoned(s.nsqlookupd.opts.TombstoneLifetime)"] := by decide
+       "assign tombstones[j] = tp.IsTombstoned(s.nsqlookupd.opts.TombstoneLifetime)"] ∧
+    Lookupd.callsNodes = ["FilterByActive", "FindProducers", "LookupRegistrations", "FindProducers", "IsTombstoned"] ∧
+    Lookupd.callsFindRegistrations = ["RLock", "RUnlock", "needFilter", "IsMatch"] ∧
+    Lookupd.callsFindProducers = ["RLock", "RUnlock", "needFilter", "ProducerMap2Slice", "IsMatch"] ∧
+    Lookupd.callsLookupRegistrations = ["RLock", "RUnlock"] ∧
+    Lookupd.callsFindRegistrationsBody = [] ∧ Lookupd.callsFindProducersBody = [] ∧
+    Lookupd.callsLookupRegistrationsBody = [] ∧ Lookupd.lookupRegistrationsBodyStmts = []
 
-theorem tombstone_shape :
+/-- … or with the proposed fix F37: the handler takes `DB.RLock()` once (as `doDebug` does) and calls the unlocked
+bodies `findRegistrations` / `findProducers` / `lookupRegistrations` (which take no lock; the exported methods are
+`RLock` + body) — ONE critical section (`lookupSecs true`, `nodesSecs true`), with `FilterByActive` / `IsTombstoned`
+evaluated inside it. Both have the sequential behaviour of `qLookup` / `qNodes`. -/
+def readersShapeAtomic : Prop :=
+    Lookupd.lookupStmts =
+      ["assign registration := s.nsqlookupd.DB.findRegistrations(\"topic\", topicName, \"\")",
+       "if len(registration) == 0",
+       "assign channels := s.nsqlookupd.DB.findRegistrations(\"channel\", topicName, \"*\").SubKeys()",
+       "assign producers := s.nsqlookupd.DB.findProducers(\"topic\", topicName, \"\")",
+       "assign producers = producers.FilterByActive(s.nsqlookupd.opts.InactiveProducerTimeout, s.nsqlookupd.opts.TombstoneLifetime)"] ∧
+    Lookupd.callsLookup = ["RLock", "RUnlock", "findRegistrations", "findRegistrations", "findProducers", "FilterByActive"] ∧
+    Lookupd.nodesStmts =
+      ["assign producers := s.nsqlookupd.DB.findProducers(\"client\", \"\", \"\").FilterByActive( s.nsqlookupd.opts.InactiveProducerTimeout, 0)",
+       "assign topics := s.nsqlookupd.DB.lookupRegistrations(p.peerInfo.id).Filter(\"topic\", \"*\", \"\").Keys()",
+       "assign topicProducersMap[t] = s.nsqlookupd.DB.findProducers(\"topic\", t, \"\")",
+       "if tp.peerInfo == p.peerInfo",
+       "assign tombstones[j] = tp.IsTombstoned(s.nsqlookupd.opts.TombstoneLifetime)"] ∧
+    Lookupd.callsNodes =
+      ["RLock", "RUnlock", "FilterByActive", "findProducers", "lookupRegistrations", "findProducers", "IsTombstoned"] ∧
+    Lookupd.callsFindRegistrations = ["RLock", "RUnlock", "findRegistrations"] ∧
+    Lookupd.callsFindProducers = ["RLock", "RUnlock", "findProducers"] ∧
+    Lookupd.callsLookupRegistrations = ["RLock", "RUnlock", "lookupRegistrations"] ∧
+    Lookupd.callsFindRegistrationsBody = ["needFilter", "IsMatch"] ∧
+    Lookupd.callsFindProducersBody = ["needFilter", "ProducerMap2Slice", "IsMatch"] ∧
+    Lookupd.callsLookupRegistrationsBody = [] ∧
+    Lookupd.lookupRegistrationsBodyStmts = ["if exists", "assign _, exists := producers[id]"]
+
+instance : Decidable readersShapeSections := by unfold readersShapeSections; infer_instance
+instance : Decidable readersShapeAtomic := by unfold readersShapeAtomic; infer_instance
+
+/-- exactly the two shapes (F37 is proposed, not committed: until then the old shape is the tree) -/
+theorem readers_shape : readersShapeSections ∨ readersShapeAtomic := by decide
+
+/-- COMPUTED from the regenerated facts: are `GET /lookup` and `GET /nodes` one critical section each? -/
+def readersAtomic : Bool := decide readersShapeAtomic
+
+/-- `doDebug` reads the whole map, incl. `tombstoned`/`tombstonedAt`, under one `RLock` -/
+theorem debug_shape : Lookupd.callsDebug = ["RLock", "RUnlock"] := by decide
+
+/-- `POST /topic/tombstone` as in the tree: `FindProducers` (one critical section), then `p.Tombstone()` on the matching
+producers with NO lock held — the writes race with the readers (finding `race:tombstone-unlocked-write`) … -/
+def tombShapeUnlocked : Prop :=
     Lookupd.tombstoneStmts =
       ["assign producers := s.nsqlookupd.DB.FindProducers(\"topic\", topicName, \"\")",
        "assign thisNode := fmt.Sprintf(\"%s:%d\", p.peerInfo.BroadcastAddress, p.peerInfo.HTTPPort)",
-       "if thisNode == node"] := by decide
+       "if thisNode == node"] ∧
+    Lookupd.callsTombstone = ["FindProducers", "Tombstone"] ∧
+    Lookupd.callsTombstoneProducers = [] ∧ Lookupd.tombstoneProducersStmts = []
+
+/-- … or with the proposed fix F38: `RegistrationDB.TombstoneProducers` finds and marks under ONE `Lock()`. Both have the
+sequential behaviour of `tombstoneDB`. -/
+def tombShapeLocked : Prop :=
+    Lookupd.tombstoneStmts = [] ∧
+    Lookupd.callsTombstone = ["TombstoneProducers"] ∧
+    Lookupd.callsTombstoneProducers = ["Lock", "Unlock", "findProducers", "Sprintf", "Tombstone"] ∧
+    Lookupd.tombstoneProducersStmts =
+      ["assign thisNode := fmt.Sprintf(\"%s:%d\", p.peerInfo.BroadcastAddress, p.peerInfo.HTTPPort)",
+       "if thisNode == node"]
+
+instance : Decidable tombShapeUnlocked := by unfold tombShapeUnlocked; infer_instance
+instance : Decidable tombShapeLocked := by unfold tombShapeLocked; infer_instance
+
+theorem tombstone_shape : tombShapeUnlocked ∨ tombShapeLocked := by decide
+
+/-- COMPUTED: is the tombstone step of the model (`tombstoneDB`, one step) one critical section of the code, i.e. are the
+marks written under `Lock()` (F38) AND read under `RLock()` (F37: `FilterByActive`/`IsTombstoned` inside the readers'
+critical section; `doDebug` always)? Until both fixes are committed this is `false` and "every step of the model is
+atomic in the code" is an ASSUMPTION for the tombstone step (named in manifest.d/C14.json), refuted on every run by the
+`-race` leg (known finding). -/
+def tombstoneAtomic : Bool := decide tombShapeLocked && readersAtomic
 
 theorem admin_calls :
     Lookupd.callsCreateTopic = ["NewReqParams", "Get", "IsValidTopicName", "AddRegistration"] ∧
     Lookupd.callsDeleteChannel =
       ["NewReqParams", "GetTopicChannelArgs", "FindRegistrations", "RemoveRegistration"] := by decide
 
-/-- `/topic/delete` and `/channel/create` as in the tree: several critical sections each
-(`delTopicStep1/2`; `AddRegistration` twice) … -/
-def adminShapeSections : Prop :=
-    Lookupd.callsDeleteTopic =
-      ["NewReqParams", "Get", "FindRegistrations", "RemoveRegistration", "FindRegistrations", "RemoveRegistration"] ∧
-    Lookupd.callsCreateChannel = ["NewReqParams", "GetTopicChannelArgs", "AddRegistration", "AddRegistration"] ∧
-    Lookupd.removeTopicStmts = [] ∧ Lookupd.callsRemoveTopic = [] ∧
-    Lookupd.addTopicChannelStmts = [] ∧ Lookupd.callsAddTopicChannel = []
-
-/-- … or with the proposed fix F18: `RemoveTopic` (the channel keys matching `(topic, *)` and the
-topic key deleted under one lock) and `AddTopicChannel` (channel key, then topic key under one
-lock). Both have the sequential behaviour of `deleteTopicDB` / `createChannel`. -/
+/-- `/topic/delete` and `/channel/create`: `RemoveTopic` (the channel keys matching `(topic, *)` and the topic key
+deleted under one lock) and `AddTopicChannel` (channel key, then topic key under one lock); commit 0d24920 = F21. The
+shape before F21 (`FindRegistrations`/`RemoveRegistration` twice; `AddRegistration` twice) is no longer accepted
+(audit B12). The sequential behaviour is `deleteTopicDB` / `createChannel`. -/
 def adminShapeAtomic : Prop :=
     Lookupd.callsDeleteTopic = ["NewReqParams", "Get", "RemoveTopic"] ∧
     Lookupd.callsCreateChannel = ["NewReqParams", "GetTopicChannelArgs", "AddTopicChannel"] ∧
@@ -208,10 +248,21 @@ def adminShapeAtomic : Prop :=
        "assign r.registrationMap[topicKey] = make(map[string]*Producer)"] ∧
     Lookupd.callsAddTopicChannel = ["Lock", "Unlock", "make", "make"]
 
-instance : Decidable adminShapeSections := by unfold adminShapeSections; infer_instance
 instance : Decidable adminShapeAtomic := by unfold adminShapeAtomic; infer_instance
 
-theorem admin_topic_shape : adminShapeSections ∨ adminShapeAtomic := by decide
+theorem admin_topic_shape : adminShapeAtomic := by decide
+
+/-- COMPUTED from the regenerated facts: are REGISTER, `/topic/delete`, `/channel/create` one critical section each?
+The concurrency theorems of `Nsq.Props.C14` about THIS tree are stated over `registerSecs treeAtomic …`; they hold
+because the facts decide `treeAtomic = true` (`tree_atomic`), not because of a constant. -/
+def treeAtomic : Bool := decide registerShapeAtomic && decide adminShapeAtomic
+
+theorem tree_atomic : treeAtomic = true := by decide
+
+/-- likewise for UNREGISTER's remove-and-prune -/
+def unregisterAtomic : Bool := decide unregisterShapeAtomic
+
+theorem unregister_atomic : unregisterAtomic = true := by decide
 
 theorem topicChannelArgs_shape :
     Lookupd.topicChannelArgs =
